@@ -5,6 +5,7 @@ import (
 	"fmt"
 	"sort"
 	"strings"
+	"unicode/utf8"
 
 	"go.lsp.dev/protocol"
 
@@ -342,14 +343,19 @@ func findTagAtPosition(tags []ast.Tag, pos protocol.Position) *hoverElement {
 			}
 		}
 
-		// Cursor is on tag value (after the colon)
+		// Cursor is after the colon. The tag's range ends where the value ends, so the
+		// value starts its own length before that; blanks may separate it from the colon.
+		valueCol := tag.Range.End.Column - utf8.RuneCountInString(tag.Value)
+		if cursorCol < valueCol {
+			continue
+		}
 		return &hoverElement{
 			context: HoverTagValue,
 			rng: ast.Range{
 				Start: ast.Position{
 					Line:   tag.Range.Start.Line,
-					Column: colonCol + 1,
-					Offset: tag.Range.Start.Offset + len(tag.Name) + 1,
+					Column: valueCol,
+					Offset: tag.Range.End.Offset - len(tag.Value),
 				},
 				End: tag.Range.End,
 			},
